@@ -330,8 +330,12 @@ impl<NumericTypes: EvalexprNumericTypes> Node<NumericTypes> {
     ) -> EvalexprResultValue<NumericTypes> {
         let mut arguments = Vec::new();
         for child in self.children() {
+            #[cfg(feature = "verif-hooks")]
+            crate::verif::point(crate::verif::Site::NodeChild);
             arguments.push(child.eval_with_context(context)?);
         }
+        #[cfg(feature = "verif-hooks")]
+        crate::verif::point(crate::verif::Site::NodeOperator);
         self.operator().eval(&arguments, context)
     }
 
@@ -346,8 +350,12 @@ impl<NumericTypes: EvalexprNumericTypes> Node<NumericTypes> {
     ) -> EvalexprResultValue<NumericTypes> {
         let mut arguments = Vec::new();
         for child in self.children() {
+            #[cfg(feature = "verif-hooks")]
+            crate::verif::point(crate::verif::Site::NodeChildMut);
             arguments.push(child.eval_with_context_mut(context)?);
         }
+        #[cfg(feature = "verif-hooks")]
+        crate::verif::point(crate::verif::Site::NodeOperatorMut);
         self.operator().eval_mut(&arguments, context)
     }
 
@@ -829,6 +837,8 @@ pub(crate) fn tokens_to_operator_tree<NumericTypes: EvalexprNumericTypes>(
     let mut token_iter = tokens.iter().peekable();
 
     while let Some(token) = token_iter.next().cloned() {
+        #[cfg(feature = "verif-hooks")]
+        crate::verif::point(crate::verif::Site::TreeLoop);
         let next = token_iter.peek().cloned();
 
         let node = match token.clone() {
